@@ -1322,6 +1322,11 @@ func (pc ParseContext) compilePackage(ctx context.Context, b ast.Branch, c ast.C
 			if strings.HasPrefix(name, "..") {
 				return nil, fmt.Errorf("import path can not be pointing outside of the script's module directory: %s", name)
 			}
+			if name == "." || name == "/" {
+				// The path names the directory itself. Adding the default extension would turn it
+				// into <dir>.arrai, a file beside (and for the root, outside) that directory.
+				return nil, fmt.Errorf("import path does not name a file: %s", scanner.String())
+			}
 			filePath := strings.Trim(name, "/")
 			if pc.SourceDir == "" {
 				return nil, fmt.Errorf("local import %q invalid; no local context", name)
